@@ -24,14 +24,14 @@ PLAN = {
         'design_ref': 'DESIGN.md 4.1',
     },
     'C02': {
-        'engines': ['verus_units'],
+        'engines': ['verus_units', 'kani'],
         'technique': 'Verus postconditions (operator definition as spec function + representation invariant) on handler bodies extracted from /repo each run',
         'level_text': 'for every operator unit: each handler, started from any state satisfying the representation invariant for any item history, re-establishes it and leaves the downstream trace equal to the ReactiveX definition applied to the extended history - all items, all counts, all lengths (induction over the history is the invariant); not a test of sampled inputs',
         'level_note': 'StreamController is represented by its contract (models/prelude.rs); user closures by an uninterpreted total function; Item=i64; locks dropped (sequential)',
         'design_ref': 'DESIGN.md 4.2',
     },
     'C03': {
-        'engines': ['verus_units', 'syntactic'],
+        'engines': ['verus_units', 'syntactic', 'kani'],
         'technique': 'Verus postconditions on the extracted handlers of every input observer, over a ghost history of serial-tagged input events (all sequential interleavings = a universally quantified sequence)',
         'level_text': 'for merge, amb, take_until, skip_until, sample, switch_on_next: each handler of each input, from any state reachable for any interleaved history, leaves the downstream trace equal to the operator definition on the extended history and the set of still-registered inputs as defined; "register all observers before subscribing any source" is a skeleton fact',
         'level_note': 'zip/combine_latest/sequence_equal/concat/flat_map have handlers that create closures or subscribe: not extractable, listed as not covered in the evidence; StreamController by contract; sequential',
@@ -59,8 +59,8 @@ PLAN = {
         'design_ref': 'DESIGN.md 4.6',
     },
     'C10': {
-        'engines': ['kani', 'syntactic'],
-        'technique': 'Kani contracts on the real Subject (next/error/complete/subscribe/unsubscribe vs SubjectModel) + bounded conformance of Behavior/Replay/Async hand-over + per-subscription frame obligation on observable()',
+        'engines': ['kani', 'syntactic', 'verus_units'],
+        'technique': 'Kani contracts on the real Subject (next/error/complete/subscribe/unsubscribe vs SubjectModel) + Verus contracts on the extracted BehaviorSubject/ReplaySubject emitting methods and BehaviorSubject hand-over + per-subscription frame obligation on observable()',
         'level_text': 'each Subject operation, on the real type, from pre-states with 1 observer (quick) or 2 observers (thorough), symbolic items, both map iteration orders: delivered to exactly the registered observers once, nothing held after a terminal/unsubscribe; re-entrant unsubscribe; hand-over of the other subject types on concrete call sequences',
         'level_note': 'bounded in observers (<=2) and history (<=3 items); sequential; no Verus induction over call histories was built for subjects',
         'design_ref': 'DESIGN.md 4.10',
